@@ -72,7 +72,7 @@ def run(tier, seed, replay=None):
         ck.control(f"corrupted trace rejected ({exp} -> {v['why']})", (not v["ok"]) and v["why"].startswith(exp), str(v))
     ck.rule = ("random bounded MILPs with integer data: 1-3 variables (at most one continuous), bounds 1..4 (40% binaries, with and without "
                "explicit x<=1 rows in shuffled order), knapsack-, cover- and mixed-sign rows; per instance 14 calls: minimize/maximize x "
-               "{default, heuristics off, feasible-looking / fractional / wrong-length warm start, lns_iterations=3, solution_limit=3}; "
+               "{default, heuristics off, feasible-looking / fractional / wrong-length / negative-on-the-continuous-variable warm start, lns_iterations=3, solution_limit=3}; "
                "non-trivial = every instance; distinct by hash")
     ck.assumptions = ["every variable carries an explicit upper bound row (finite integer part)", "max_nodes / max_iter at their defaults"]
     return ck.finish()
